@@ -22,6 +22,9 @@ from typing import Iterable
 from sa.cfg import CFG, no_exc
 from sa.loader import (
     FuncDef,
+    ancestors,
+    call_name,
+    qualname_of,
     Module,
     Repo,
     enclosing_function,
@@ -870,4 +873,85 @@ def iter_mutation(check: Check, funcs: Iterable[ast.AST], rule: str = "ITER-MUTA
     fx = fixture("generic_controls")
     check.control(f"{rule}:bad", bool(iter_mutations(fx.get("itermut_bad"))), True)
     check.control(f"{rule}:ok", bool(iter_mutations(fx.get("itermut_ok"))), False)
+    return n
+
+
+# --------------------------------------------------------------------------- #
+# CLASS-MEMO-OWN
+
+
+def _class_params(fn: ast.AST) -> set[str]:
+    out = set()
+    args = fn.args
+    for a in list(args.posonlyargs) + list(args.args) + list(args.kwonlyargs):
+        ann = unparse(a.annotation) if a.annotation is not None else ""
+        if a.arg in ("cls", "owner", "klass") or ann == "type" or ann.startswith(("type[", "Type[")):
+            out.add(a.arg)
+    return out
+
+
+def class_memo_sites(fn: ast.AST) -> list[tuple[ast.AST, str, str]]:
+    """(read site, class variable, attribute): a per-class memo written as `cls.<a> = f(cls)` whose presence
+    is probed through ordinary attribute lookup on the class (which consults the base classes)."""
+    out = []
+    for c in _class_params(fn):
+        written: dict[str, ast.AST] = {}
+        for n in walk_body(fn):
+            if isinstance(n, (ast.Assign, ast.AnnAssign)):
+                tgts = n.targets if isinstance(n, ast.Assign) else [n.target]
+                for t in tgts:
+                    if isinstance(t, ast.Attribute) and isinstance(t.value, ast.Name) and t.value.id == c and n.value is not None:
+                        written[t.attr] = n.value
+            elif isinstance(n, ast.Call) and call_name(n) == "setattr" and len(n.args) == 3 and unparse(n.args[0]) == c \
+                    and isinstance(n.args[1], ast.Constant):
+                written[str(n.args[1].value)] = n.args[2]
+        for attr, value in written.items():
+            # the memoised value is specific to the class: computed from the class (directly or through locals)
+            deps = {x.id for x in ast.walk(value) if isinstance(x, ast.Name)}
+            local_from_cls = set()
+            for n in walk_body(fn):
+                if isinstance(n, ast.Assign) and any(isinstance(x, ast.Name) and x.id == c for x in ast.walk(n.value)):
+                    local_from_cls |= {t.id for t in n.targets if isinstance(t, ast.Name)}
+            if c not in deps and not (deps & local_from_cls):
+                continue
+            for n in walk_body(fn):
+                probe = None
+                if isinstance(n, ast.Call) and call_name(n) in ("hasattr", "getattr") and len(n.args) >= 2 and unparse(n.args[0]) == c \
+                        and isinstance(n.args[1], ast.Constant) and n.args[1].value == attr and (call_name(n) == "hasattr" or len(n.args) == 3):
+                    probe = n
+                elif isinstance(n, ast.Attribute) and isinstance(n.ctx, ast.Load) and n.attr == attr and isinstance(n.value, ast.Name) and n.value.id == c:
+                    t = next((a for a in ancestors(n) if isinstance(a, ast.Try)), None)
+                    if t is not None and any(n is x for s in t.body for x in ast.walk(s)) and any(
+                            "AttributeError" in unparse(h.type) for h in t.handlers if h.type is not None):
+                        probe = n
+                if probe is not None:
+                    out.append((probe, c, attr))
+    return out
+
+
+def class_memo_own(check: Check, funcs: Iterable[ast.AST], rule: str = "CLASS-MEMO-OWN") -> int:
+    check.rule(
+        rule,
+        "a value memoised per class - `cls.<a> = <computed from cls>` in a descriptor / classmethod / "
+        "__init_subclass__ - is looked up in the class's own namespace (`'<a>' in cls.__dict__`, vars(cls)): a probe "
+        "through ordinary attribute lookup (hasattr(cls, a), getattr(cls, a, default), try: cls.a except "
+        "AttributeError) also finds the memo of a *base* class, so a subclass is served its parent's value once "
+        "the parent was asked first (Node.keys of SelectionNode handed to FieldNode: visit() rebuilds an edited "
+        "field from the wrong field list and drops its children)",
+    )
+    n = 0
+    fx = fixture("generic_controls")
+    bad_fn = next(f for f in fx.get("class_memo_bad").body if isinstance(f, ast.FunctionDef))
+    ok_fns = [f for f in fx.get("class_memo_ok").body if isinstance(f, ast.FunctionDef)]
+    check.control(f"{rule}:bad", bool(class_memo_sites(bad_fn)), True)
+    check.control(f"{rule}:ok", any(class_memo_sites(f) for f in ok_fns), False)
+    for fn in funcs:
+        if isinstance(fn, ast.Lambda) or not _class_params(fn):
+            continue
+        sites = class_memo_sites(fn)
+        n += 1
+        check.ob(rule, fn, f"{qualname_of(fn)}: per-class memo", not sites,
+                 "no per-class memo probed through inherited lookup" if not sites else
+                 "; ".join(f"line {s.lineno}: `{unparse(s)}` finds `{c}.{a}` of a base class as well" for s, c, a in sites),
+                 nontrivial=bool(sites))
     return n
